@@ -117,9 +117,9 @@ func (t triple) eq(u triple) bool {
 
 var nearHosts = []string{
 	"2b4d1e6a-0c1f-4f0e-9d3a-5b6c7d8e9f01", "2b4d1e6a-0c1f-4f0e-9d3a-5b6c7d8e9f02", "2B4D1E6A-0C1F-4F0E-9D3A-5B6C7D8E9F01",
-	"h1", "h2", "h", "h12", "", "h\x001", "h/1", "h:1", "10.0.0.1", "10.0.0.11", "h\u00e9", "1", "12",
+	"h1", "h2", "h", "h12", "", "h\x001", "h/1", "h:1", "10.0.0.1", "10.0.0.11", "h\u00e9", "1", "12", longPad[:100], longPad[:109],
 }
-var nearKss = []string{"", "ks", "Ks", "kS", "ks1", "ks2", "k", "s", "ks\x00", "k/s", "k:s", "k s", "system", "system_auth", "SELECT", "k\u00e9", "\u00e9", "2", "0/"}
+var nearKss = []string{"", "ks", "Ks", "kS", "ks1", "ks2", "k", "s", "ks\x00", "k/s", "k:s", "k s", "system", "system_auth", "SELECT", "k\u00e9", "\u00e9", "2", "0/", longPad[:10], longPad[:99], longPad[:100], longPad[:101]}
 var nearSeps = []string{"\x00", "/", ":", "|", " ", ",", "\x1f", "\n", "0", "2/"}
 
 func nearBaseTriple(r *vh.Rng) triple {
